@@ -238,7 +238,7 @@ func genRouter(r *rand.Rand, n int, mode string, out *bufio.Writer) {
 
 // ---- C05: arbitrary and grammar-mutated PATTERN strings through CheckSyntax, URL, Handle (+ a few requests)
 var patAtoms = []string{"/", "/u", "/p-", "{", "}", ":", "-", "{id}", "{id:\\d+}", "{-id}", "{id:digit}", "{:x}", "{}", "{a}{b}", "{id:[}", "{id:(}", "{id:\\}",
-	"{\u540d}", "{id:.+}", "x", ".", "*", "", "{id", "id}", "}{", "{{", "}}", "{a:b:c}", "{a-b}", "{1x:\\d}", "\\", "%", " ", "{id:\\d{2}}", "{id:a|b}"}
+	"{\u540d}", "{id:.+}", "x", ".", "*", "", "{id", "id}", "}{", "{{", "}}", "{a:b:c}", "{a-b}", "{1x:\\d}", "\\", "%", " ", "{id:\\d{2}}", "{id:a|b}", "{id:a)|(b}", "{id:a)(b}", "{id:x)|(}", "{id:(?i)b}"}
 
 func randPattern(r *rand.Rand) string {
 	switch r.IntN(10) {
@@ -292,7 +292,7 @@ func genPatterns(r *rand.Rand, n int, out *bufio.Writer) {
 			{"op": "remove", "pat": l1enc(pat), "methods": []string{}, "mws": []string{}, "chain": []any{}, "res": false},
 		}
 		probes := []map[string]any{}
-		for _, p := range []string{pat, mutatePath(r, pat, true), "/u/5", "", "*", mutatePath(r, "/u/5/x", true)} {
+		for _, p := range []string{pat, mutatePath(r, pat, true), "/u/5", "", "*", mutatePath(r, "/u/5/x", true), "/b", "b", "/ub", "/u/b", "/p-b", "/uab"} {
 			if len(p) > 200 {
 				p = p[:200]
 			}
